@@ -241,7 +241,7 @@ def backfillG (fixed : Bool) (maxBD : Int) (N : Nat) (input : List Sample) : Opt
   | .ok (maxt, mint) => createBlocks fixed true input mint maxt maxBD N
 
 /-- Does /repo carry the F4 repair (fixes/F4.patch)? -/
-def repoFixed : Bool := false
+def repoFixed : Bool := true
 
 def backfill := backfillG repoFixed
 
